@@ -380,6 +380,31 @@ pub fn check(_ctx: &Ctx, input: &Input) -> CaseResult {
                 }
             }
         }
+        // likewise data segments with pairwise distinct, non-empty payloads
+        {
+            let mut seen = std::collections::HashSet::new();
+            let unique = da.datas.iter().all(|d| !d.bytes.is_empty() && seen.insert(d.bytes.clone()));
+            if unique && !da.datas.is_empty() {
+                for (id, got) in ans.datas.iter() {
+                    for (i, x) in ids.datas.iter().enumerate() {
+                        if x != id {
+                            continue;
+                        }
+                        if db.datas.get(*got as usize).map(|d| &d.bytes) != Some(&da.datas[i].bytes) {
+                            return Err(Failure::new(
+                                "emit-map:data",
+                                format!(
+                                    "[{}] the emit-time map says the data segment of input index {} ({} bytes) is at index {}, the segment emitted there has {:?} bytes [{}]",
+                                    if do_gc { "gc" } else { "plain" }, i, da.datas[i].bytes.len(), got,
+                                    db.datas.get(*got as usize).map(|d| d.bytes.len()), p.origin
+                                ),
+                            ));
+                        }
+                    }
+                }
+                out.label("data-payloads-judged");
+            }
+        }
         let mut iso = Iso::new(&da, &db);
         iso.tolerate = vec!["memarg-offset-truncated-to-u32".into()];
         let r = if do_gc { iso.run_gc() } else { iso.run_full() };
